@@ -344,4 +344,164 @@ Qed.
 Lemma gc_chan_static g c :
   c_isidx (gc_chan g c) = c_isidx c /\ c_index (gc_chan g c) = c_index c /\
   c_var (gc_chan g c) = c_var c /\ c_dens (gc_chan g c) = c_dens c.
-Proof. unfold gc_chan. apply gc_files_static. Qed.
+Proof.
+  unfold gc_chan.
+  match goal with |- context [gc_files g ?c1 ?ks] => destruct (gc_files_static g c1 ks) as (A & B & C & D) end.
+  simpl in *. auto.
+Qed.
+
+(* ------------------------------------------------------------------ reads see views only *)
+Definition chan_equiv (c c' : chan) : Prop :=
+  c_isidx c = c_isidx c' /\ c_index c = c_index c' /\ c_var c = c_var c' /\
+  c_dens c = c_dens c' /\ cview c = cview c'.
+
+Definition db_equiv (d d' : db) : Prop :=
+  Forall2 (fun kc kc' => fst kc = fst kc' /\ chan_equiv (snd kc) (snd kc')) d d'.
+
+Definition wf_db (d : db) : Prop := Forall (fun kc => wf_chan (snd kc)) d.
+
+Lemma chan_equiv_refl c : chan_equiv c c.
+Proof. repeat split. Qed.
+
+Lemma chan_equiv_sym c c' : chan_equiv c c' -> chan_equiv c' c.
+Proof. intros (A & B & C & D & E). repeat split; auto. Qed.
+
+Lemma chan_equiv_trans a b c : chan_equiv a b -> chan_equiv b c -> chan_equiv a c.
+Proof.
+  intros (A & B & C & D & E) (A' & B' & C' & D' & E'). repeat split; congruence.
+Qed.
+
+Lemma db_equiv_refl d : db_equiv d d.
+Proof. induction d; constructor; auto. split; [reflexivity|apply chan_equiv_refl]. Qed.
+
+Lemma db_equiv_sym d d' : db_equiv d d' -> db_equiv d' d.
+Proof.
+  induction 1; constructor; auto. destruct H. split; [auto|apply chan_equiv_sym; auto].
+Qed.
+
+Lemma db_equiv_trans a b c : db_equiv a b -> db_equiv b c -> db_equiv a c.
+Proof.
+  intros H. revert c. induction H; intros c' H'; inversion H'; subst; constructor.
+  - destruct H, H3. split; [congruence|eapply chan_equiv_trans; eauto].
+  - apply IHForall2. assumption.
+Qed.
+
+Lemma alookup_equiv d d' k :
+  db_equiv d d' ->
+  match alookup k d, alookup k d' with
+  | Some c, Some c' => chan_equiv c c'
+  | None, None => True
+  | _, _ => False
+  end.
+Proof.
+  induction 1 as [|[k1 c1] [k2 c2] d d' [Hk Hc] _ IH]; simpl; [exact I|].
+  simpl in Hk. subst k2. destruct (k =? k1); [exact Hc|exact IH].
+Qed.
+
+Lemma doms_of_view c :
+  doms c = map (fun v => Dom (fst (fst v)) (map s_val (snd v))) (cview c).
+Proof. unfold doms, cview. rewrite map_map. reflexivity. Qed.
+
+Lemma chan_equiv_doms c c' : chan_equiv c c' -> doms c = doms c'.
+Proof. intros (_ & _ & _ & _ & E). rewrite !doms_of_view, E. reflexivity. Qed.
+
+Lemma cview_ptrs c c' :
+  cview c = cview c' -> Forall2 (fun p p' => pview c p = pview c' p') (c_ptrs c) (c_ptrs c').
+Proof.
+  unfold cview. generalize (c_ptrs c) (c_ptrs c'). induction l as [|p l IH]; intros l' E.
+  - destruct l'; [constructor|discriminate].
+  - destruct l' as [|p' l']; [discriminate|]. simpl in E.
+    assert (E1 : pview c p = pview c' p') by congruence.
+    assert (E2 : map (pview c) l = map (pview c') l') by congruence.
+    constructor; [exact E1|apply IH; exact E2].
+Qed.
+
+Lemma byte_offset_ext c c' p p' idx :
+  pview c p = pview c' p' -> c_var c = c_var c' -> c_dens c = c_dens c' ->
+  byte_offset c p idx = byte_offset c' p' idx.
+Proof.
+  unfold pview, byte_offset. intros E V D. inversion E as [[E1 E2 E3]].
+  rewrite V, D, E2, E3. reflexivity.
+Qed.
+
+Lemma slice_ptr_ext P c c' p p' v :
+  pview c p = pview c' p' -> c_var c = c_var c' -> c_dens c = c_dens c' ->
+  slice_ptr P c p v = slice_ptr P c' p' v.
+Proof.
+  intros E V D. unfold slice_ptr.
+  pose proof (fun i => byte_offset_ext c c' p p' i E V D) as HB.
+  unfold pview in E. inversion E as [[E1 E2 E3]].
+  unfold domain_sample_count. rewrite E1, E2, E3, V, D.
+  destruct (distance P _ true) as [sa|e]; simpl; [|reflexivity].
+  rewrite HB. destruct (byte_offset c' p' _) as [so|e]; simpl; [|reflexivity].
+  match goal with |- rbind ?x _ = rbind ?x _ => destruct x as [ea|e] end; simpl; [|reflexivity].
+  rewrite HB. reflexivity.
+Qed.
+
+Lemma read_loop_ext P c c' first ps ps' b v :
+  c_var c = c_var c' -> c_dens c = c_dens c' ->
+  Forall2 (fun p p' => pview c p = pview c' p') ps ps' ->
+  read_loop P c first ps b v = read_loop P c' first ps' b v.
+Proof.
+  intros V D H. revert first. induction H as [|p p' ps ps' E _ IH]; intros first; simpl; [reflexivity|].
+  assert (Et : p_tr p = p_tr p') by (unfold pview in E; inversion E; reflexivity).
+  rewrite Et, (slice_ptr_ext P c c' p p' v E V D), !IH. reflexivity.
+Qed.
+
+Lemma Forall2_skipn {A B} (R : A -> B -> Prop) n l l' :
+  Forall2 R l l' -> Forall2 R (skipn n l) (skipn n l').
+Proof.
+  intros H. revert n. induction H; intros [|n]; simpl; auto.
+Qed.
+
+Lemma read_chan_ext P c c' b : chan_equiv c c' -> read_chan P c b = read_chan P c' b.
+Proof.
+  intros H. pose proof (chan_equiv_doms _ _ H) as Hd. destruct H as (_ & _ & V & D & E).
+  unfold read_chan. rewrite Hd.
+  destruct (di_seek_first (doms c') (di_open b)) as [it ok].
+  destruct (negb ok); [reflexivity|].
+  destruct (_ =? _); [reflexivity|]. destruct (_ || _); [reflexivity|].
+  rewrite (read_loop_ext P c c' true _ (skipn (Z.to_nat (di_pos it)) (c_ptrs c')) b _ V D).
+  - reflexivity.
+  - apply Forall2_skipn. apply cview_ptrs. exact E.
+Qed.
+
+(* reads are a function of the views: equivalent databases read the same everywhere *)
+Theorem read_equiv d d' k b : db_equiv d d' -> read d k b = read d' k b.
+Proof.
+  intros H. unfold read. pose proof (alookup_equiv d d' k H) as Hk.
+  destruct (alookup k d) as [c|], (alookup k d') as [c'|]; try contradiction; [|reflexivity].
+  assert (Hi : index_doms d c = index_doms d' c').
+  { unfold index_doms. destruct Hk as (_ & Hix & _). rewrite Hix.
+    pose proof (alookup_equiv d d' (c_index c') H) as Hj.
+    destruct (alookup (c_index c') d), (alookup (c_index c') d'); try contradiction; [|reflexivity].
+    apply chan_equiv_doms. exact Hj. }
+  rewrite Hi. apply read_chan_ext. exact Hk.
+Qed.
+
+(* garbage collection of the whole database, any threshold *)
+Theorem gc_db_equiv g d : wf_db d -> db_equiv (gc_db g d) d /\ wf_db (gc_db g d).
+Proof.
+  unfold gc_db, wf_db. induction 1 as [|[k c] d Hc _ [IH1 IH2]]; simpl.
+  - split; constructor.
+  - simpl in Hc. destruct (gc_chan_view g c Hc) as [V W].
+    destruct (gc_chan_static g c) as (A & B & C & D).
+    split; constructor; auto. simpl. split; [reflexivity|]. repeat split; auto.
+Qed.
+
+Theorem gc_invisible g d k b : wf_db d -> read (gc_db g d) k b = read d k b.
+Proof. intros H. apply read_equiv. apply gc_db_equiv. exact H. Qed.
+
+(* reopen *)
+Theorem reopen_db_equiv d : db_equiv (reopen_db d) d /\ (wf_db d -> wf_db (reopen_db d)).
+Proof.
+  unfold reopen_db, wf_db. induction d as [|[k c] d [IH1 IH2]]; simpl.
+  - split; [constructor|auto].
+  - split.
+    + constructor; auto. simpl. split; [reflexivity|]. repeat split.
+    + intros H. inversion H; subst. constructor; auto. simpl in *.
+      destruct H2 as [A B C]. constructor; assumption.
+Qed.
+
+Theorem reopen_invisible d k b : read (reopen_db d) k b = read d k b.
+Proof. apply read_equiv. apply reopen_db_equiv. Qed.
